@@ -147,6 +147,27 @@ fn run_datetime(data: &[u8], ctx: &mut Ctx) -> CaseResult {
     let other = Timestamp::from(want32.wrapping_add(DIFFS[pick(&mut u, DIFFS.len())]));
     let t = Timestamp::from_str(&txt).unwrap();
     vensure!(t.partial_cmp(&other) == rs::cmp(t.into_int(), other.into_int()), "datetime:cmp", "cmp");
+    // wall-clock entry point: `Serial::from(jiff::Timestamp)` for times on
+    // both sides of the epoch and of the 2^32-second eras. Moving the clock
+    // forward by d < 2^31 seconds must move the serial forward by d (RFC 1982
+    // addition), so that later times compare newer also across 1970 / 2106.
+    let secs: i64 = match pick(&mut u, 6) {
+        0 => -(1 + (u32_(&mut u) % 100_000) as i64),
+        1 => [0i64, -1, 1, -0x8000_0000, -0x8000_0001, -0x7FFF_FFFF, 0xFFFF_FFFF, 0x1_0000_0000, -0x1_0000_0000, -0x1_0000_0001][pick(&mut u, 10)],
+        2 => want,
+        3 => -((u64_(&mut u) % (1u64 << 35)) as i64),
+        _ => (u64_(&mut u) % (1u64 << 35)) as i64,
+    };
+    let d = addend(&mut u);
+    if let (Ok(t0), Ok(t1)) = (jiff::Timestamp::from_second(secs), jiff::Timestamp::from_second(secs + d as i64)) {
+        let (s0, s1) = (Serial::from(t0), Serial::from(t1));
+        if secs < 0 { ctx.class("wallclock-before-epoch"); }
+        if secs < 0 && secs + d as i64 >= 0 { ctx.class("wallclock-pair-straddles-epoch"); }
+        vensure!(s1 == s0.add(d), "datetime:wallclock-conversion-not-additive", "Serial::from(time {secs} s) = {s0}, Serial::from(time {} s) = {s1}: {d} seconds later is not serial + {d}", secs + d as i64);
+        if d >= 1 {
+            vensure!(s0 < s1 && s1 > s0, "datetime:wallclock-later-time-not-newer", "time {secs} s -> serial {s0}; {d} s later -> serial {s1}, which does not compare newer");
+        }
+    }
     Ok(())
 }
 
@@ -329,7 +350,7 @@ fn replay_extra(data: &[u8], _ctx: &mut Ctx) -> CaseResult {
 }
 
 fn health(c: &BTreeMap<String, u64>, _t: bool) -> Result<(), String> {
-    for k in ["near-2^31", "straddles-wrap", "date-beyond-2038", "bump-at-boundary", "ixfr-client-behind-across-wrap", "ixfr-client-level", "ixfr-client-ahead", "ixfr-answer-single-soa", "ixfr-answer-transfer", "users-bump-ran", "users-ixfr-ran", "systime-other-era-than-reference", "systime-order-checked", "systime-reference-in-era-0", "users-sign-ran", "sign-period-crosses-2^32", "sign-period-inverted", "sign-period-2^31-apart", "sign-period-valid", "new-near-2^31", "new-straddles-wrap", "new-inc-by-max", "ixfr-receiver-accepts", "ixfr-receiver-applies-diff-across-wrap"] {
+    for k in ["near-2^31", "straddles-wrap", "date-beyond-2038", "bump-at-boundary", "ixfr-client-behind-across-wrap", "ixfr-client-level", "ixfr-client-ahead", "ixfr-answer-single-soa", "ixfr-answer-transfer", "users-bump-ran", "users-ixfr-ran", "systime-other-era-than-reference", "systime-order-checked", "systime-reference-in-era-0", "users-sign-ran", "sign-period-crosses-2^32", "sign-period-inverted", "sign-period-2^31-apart", "sign-period-valid", "new-near-2^31", "new-straddles-wrap", "new-inc-by-max", "ixfr-receiver-accepts", "ixfr-receiver-applies-diff-across-wrap", "ixfr-multi-diff-history-straddles-wrap", "wallclock-before-epoch", "wallclock-pair-straddles-epoch"] {
         if c.get(k).copied().unwrap_or(0) < 50 {
             return Err(format!("class {k} starved"));
         }
@@ -344,7 +365,7 @@ pub fn prop() -> Prop {
         assumptions: &["Serial::add with an addend >= 2^31 panics by documented contract and is never generated", "reference: RFC 1982 section 3 on i64 arithmetic (refimpl::serial)"],
         subchecks: vec![
             SubCheck::new("pairs", run_pairs, 400_000, 20_000_000, 40),
-            SubCheck::new("datetime", run_datetime, 60_000, 2_000_000, 16),
+            SubCheck::new("datetime", run_datetime, 60_000, 2_000_000, 48),
             SubCheck::new("systime", run_systime, 200_000, 6_000_000, 40),
             SubCheck::new("new-pairs", newapi::run_new_pairs, 300_000, 10_000_000, 40),
             SubCheck::new("users-bump", users::run_bump, 6_000, 150_000, 200),
